@@ -83,8 +83,8 @@ def fromSpherical (cost phi : α) : Vec3 α :=
 def minAccurateSintheta : α := 0.005
 
 /-- the (sinθ, cosφ, sinφ) that `rotate` derives from `rot` (three branches; the near-axis
-    branch normalises x and y by rho = sqrt(x² + y²), keeping the sign of y, and falls back to
-    φ = 0 when rho = 0) -/
+    branch takes cosφ = x/rho with rho = sqrt(x² + y²) and sinφ = +sqrt(1 − cos²φ) — the sign
+    of y is NOT used — and treats rho = 0 as exactly on the axis: sinθ := 0, φ := 0) -/
 def rotAngles (rot : Vec3 α) : α × α × α :=
   let sint := Num.sqrt ((1 : α) - Num.sq rot.z)
   if Num.ge sint (minAccurateSintheta : α) then
@@ -92,8 +92,10 @@ def rotAngles (rot : Vec3 α) : α × α × α :=
     (sint, rot.x * inv, rot.y * inv)
   else if Num.gt sint (0 : α) then
     let rho := Num.sqrt (Num.sq rot.x + Num.sq rot.y)
-    if Num.gt rho (0 : α) then (sint, rot.x / rho, rot.y / rho)
-    else (sint, 1, 0)
+    if Num.gt rho (0 : α) then
+      let c := rot.x / rho
+      (sint, c, Num.sqrt ((1 : α) - Num.sq c))
+    else (0, 1, 0)
   else
     (sint, 1, 0)
 
